@@ -250,7 +250,7 @@ class HpcSubmitter:
             max_iterations = 1
         highest_index = -1
         done = False
-        for _ in range(max_iterations):
+        for iteration in range(max_iterations):
             for i, job in enumerate(available_jobs):
                 if i > highest_index:
                     highest_index = i
@@ -265,8 +265,11 @@ class HpcSubmitter:
                         submitted_jobs.append(job)
                         submitted_jobs_by_name.add(job.name)
                         blocked_jobs_by_name.pop(job.name, None)
-                    else:
+                    elif iteration == 0:
                         # Need to look at this job in the next round.
+                        # On later iterations every index has already been checked, and
+                        # moving the cursor back would offer jobs that are already in this
+                        # batch to the next batch.
                         highest_index -= 1
                 if batch.is_ready_to_submit or len(submitted_jobs_by_name) == len(available_jobs):
                     done = True
